@@ -305,7 +305,7 @@ impl UnitRunner for C12 {
     let u = unit as usize;
     if u < NK * NK { let (k1, k2) = (NUM_KINDS[u / NK], NUM_KINDS[u % NK]); self.pair(k1, k2, out); }
     else if u == NK * NK { self.reshapes(out); }
-    else if u == NK * NK + 1 { self.to_set(out); }
+    else if u == NK * NK + 1 { self.to_set(out); context_unit(out); }
     else { self.no_conversion(out); }
   }
 }
@@ -327,4 +327,23 @@ impl Check for C12 {
     rep.cov("rejections_for_unsupported_kind_pairs", json!(before - rep.out.failures.len()));
     if supported.len() < 100 { rep.vacuity.push(format!("only {} kind pairs converted", supported.len())); }
   }
+}
+
+/// Annotated references whose variable is bound locally (function parameter, match-arm binding, comprehension generator; shadowed by a
+/// global of another value): the conversion must be the one the same annotation gives on a global variable.
+fn context_unit(out: &mut WorkerOut) {
+  use crate::ctx::{lv, Tpl};
+  let mut s = Session::new();
+  for d in ["a := 7.5", "m := [9 9]"] { s.run(d); }
+  let srcs: [(&str, &str, &str); 5] = [("f64", "300.7", "gf"), ("f64", "-3.99", "gn"), ("u8", "200", "gu"), ("i64", "-5", "gi"), ("f32", "2.5", "gs")];
+  for (k, v, g) in srcs { s.run(&define_typed(g, k, v)); }
+  s.run("gm := [1.5 300.7 -2.5]"); s.run("gq<[u8]> := [1 2 3 4]");
+  let mut tpls: Vec<Tpl> = vec![];
+  for (k, _, g) in srcs { for t in ["u8", "i8", "i64", "f32", "f64", "u16"] {
+    tpls.push(Tpl { local: format!("a<{}>", t), top: format!("{}<{}>", g, t), vars: vec![lv("a", g, k)], scalar_operands: true, set_ok: true, tag: format!("annotated-reference:{}->{}", k, t), fn_ok: true });
+    tpls.push(Tpl { local: format!("a<{}> + a<{}>", t, t), top: format!("{}<{}> + {}<{}>", g, t, g, t), vars: vec![lv("a", g, k)], scalar_operands: true, set_ok: false, tag: format!("annotated-reference-in-formula:{}->{}", k, t), fn_ok: true });
+  } }
+  for t in ["[u8]", "[i64]", "[f32]", "[u8]:3,1", "{f64}"] { tpls.push(Tpl { local: format!("m<{}>", t), top: format!("gm<{}>", t), vars: vec![lv("m", "gm", "[f64]")], scalar_operands: false, set_ok: false, tag: format!("annotated-reference:[f64]->{}", t), fn_ok: true }); }
+  for t in ["[f64]", "[u16]", "[u8]:2,2", "[*]:2,2", "{u8}"] { tpls.push(Tpl { local: format!("m<{}>", t), top: format!("gq<{}>", t), vars: vec![lv("m", "gq", "[u8]")], scalar_operands: false, set_ok: false, tag: format!("annotated-reference:[u8]->{}", t), fn_ok: true }); }
+  crate::ctx::judge_templates("C12", &mut s, &tpls, 0, "a := 7.5; m := [9 9] (globals); gf<f64> := 300.7; gn<f64> := -3.99; gu<u8> := 200; gi<i64> := -5; gs<f32> := 2.5; gm := [1.5 300.7 -2.5]; gq<[u8]> := [1 2 3 4]", out);
 }
